@@ -91,7 +91,7 @@ func allObjs(fds []pbfrun.FrameDesc) []uint64 {
 
 func traceCase(w *wire.Writer, r *pbfrun.Runner, f *file, procs int, skip [3]bool) (*wire.Case, error) {
 	fds := pbfrun.Describe(f.desc, f.data, f.frames, skip, nil)
-	obs, err := r.Run(pbfrun.Job{Data: f.data, Procs: procs, Skip: skip, Mode: "trace"})
+	obs, err := r.Run(pbfrun.Job{Data: f.data, Procs: procs, Skip: skip, Mode: "trace", Canon: true})
 	if err != nil {
 		return nil, err
 	}
@@ -139,8 +139,26 @@ func traceCase(w *wire.Writer, r *pbfrun.Runner, f *file, procs int, skip [3]boo
 	if c.OracleFail == "" && (k != len(o.Objs) || o.Err != 0) {
 		c.OracleFail = fmt.Sprintf("expected %d objects and no error, got %d, err %q", k, len(o.Objs), o.ErrText)
 	}
+	var expected []string
+	for bi, b := range f.desc.Blocks {
+		for _, e := range pbfgen.BlockElements(b, bi) {
+			e := e
+			if (e.Kind == "node" && skip[0]) || (e.Kind == "way" && skip[1]) || (e.Kind == "relation" && skip[2]) {
+				continue
+			}
+			expected = append(expected, pbfrun.CanonElem(&e))
+		}
+	}
+	if c.OracleFail != "" {
+		for i := 0; i < len(expected) && i < len(o.Canon); i++ {
+			if expected[i] != o.Canon[i] {
+				c.OracleFail += fmt.Sprintf("; first differing object #%d: expected %s, decoded %s", i+1, expected[i], o.Canon[i])
+				break
+			}
+		}
+	}
 	c.Desc = map[string]interface{}{"kind": "trace", "file_seed": f.seed, "procs": procs, "skip": skip, "frames": fds,
-		"objs": o.Objs, "fsb": o.FSB, "pfsb": o.PFSB, "err": o.ErrText, "file": f.desc}
+		"objs": o.Objs, "decoded_objects": o.Canon, "expected_objects": expected, "fsb": o.FSB, "pfsb": o.PFSB, "err": o.ErrText, "file": f.desc}
 	c.Trivial = len(o.Objs) == 0
 	return c, nil
 }
